@@ -571,6 +571,31 @@ theorem stops_planimetric {β : Type} [Add β] [LT β] [DecidableLT β] [Sub β]
   · obtain ⟨a, b, c⟩ := key _ _ h1
     simp only [if_neg hds, a, b, c]
 
+/-- array form of stop detection (run by the driver) = `findStopsGlobalPy`: same errors, and on success the segmentation is
+`stopsSegmentation`, the stops are `stopsReported` and the identifiers those of `findStopsGlobalPy` -/
+theorem find_stops_array_form {β : Type} [Add β] [LT β] [DecidableLT β] [Sub β] [Mul β] (zero one : β) (sq ofNat : Nat → β)
+    (track resampled : List (Fix β)) (circ2 circA : Nat → Nat → Option β) (diameter duration downsampling : β) :
+    (findStopsGlobalPyA zero one sq ofNat track resampled circ2 circA diameter duration downsampling).map (fun r => r.2.2) =
+      findStopsGlobalPy zero one sq ofNat track resampled circ2 circA diameter duration downsampling ∧
+    ∀ seg st ids, findStopsGlobalPyA zero one sq ofNat track resampled circ2 circA diameter duration downsampling = .ok (seg, st, ids) →
+      let tr := stopsTrack one downsampling track resampled
+      let p := stopPredTrack zero (getFix zero tr) circ2 diameter duration
+      seg = stopsSegmentation zero sq p tr.length ∧
+      st = stopsReported zero sq p (stopKeepTrack zero (getFix zero tr) circA diameter duration) tr.length := by
+  unfold findStopsGlobalPyA findStopsGlobalPy stopsReported stopsSegmentation
+  simp only [optimalPartitionA_eq]
+  constructor
+  · split
+    · rfl
+    · split <;> rfl
+  · intro seg st ids h
+    split at h
+    · cases h
+    · split at h
+      · cases h
+      · simp only [Except.ok.injEq, Prod.mk.injEq] at h
+        exact ⟨h.1.symm, h.2.1.symm⟩
+
 section track
 variable {K : Type} [CommRing K] [LinearOrder K] [IsStrictOrderedRing K]
 
